@@ -1026,6 +1026,17 @@ impl OpsWorld {
             (a, b) => a == b,
         };
         if !matches {
+            // C07: a descriptor the kernel returned is wrapped with the kind that was asked for.
+            if let (Seen::Ready(e), Seen::Ready(a)) = (&expected, &seen) {
+                let kind_of = |s: &str| s.strip_prefix("fd:").and_then(|r| r.split(':').next().map(|k| k.to_string()));
+                if kind.class() == Class::Desc || kind.class() == Class::StreamDesc {
+                    if let (Some(want), Some(got)) = (kind_of(e), kind_of(a)) {
+                        if want != got {
+                            self.report("C07", &format!("wrong-kind/{kind:?}"), format!("{kind:?} was asked for a {want} descriptor; what the caller got is {a} (the kernel returned {e})"));
+                        }
+                    }
+                }
+            }
             let prop = if self.cfg.prop == "C05" {
                 "C05"
             } else if self.cfg.prop == "C09" {
